@@ -1054,7 +1054,7 @@ class SI:
         return self._cmp(o, "__ne__")
 
     def __hash__(self):
-        return id(self)
+        return 0  # constant: dict/set lookups must fall through to __eq__ (which forks)
 
     def concretize(self):
         """fork over the feasible values (used for list/dict indexing)."""
